@@ -439,3 +439,30 @@ func ClosureStores(mc *ssa.MakeClosure, cell ssa.Value) bool {
 	}
 	return false
 }
+
+// Subst returns a copy of t in which every parameter term "param:<name>" listed in m is replaced.
+func Subst(t *Term, m map[string]*Term) *Term {
+	seen := map[*Term]*Term{}
+	var rec func(x *Term, d int) *Term
+	rec = func(x *Term, d int) *Term {
+		if x == nil || d > 40 {
+			return x
+		}
+		if r, ok := seen[x]; ok {
+			return r
+		}
+		if x.Kind == "param" {
+			if r, ok := m[x.Name]; ok {
+				return r
+			}
+			return x
+		}
+		n := &Term{Kind: x.Kind, Name: x.Name, V: x.V, Type: x.Type}
+		seen[x] = n
+		for _, a := range x.Args {
+			n.Args = append(n.Args, rec(a, d+1))
+		}
+		return n
+	}
+	return rec(t, 0)
+}
